@@ -65,7 +65,7 @@ def regen(skip=()):
     if skip:
         cmd += ['--skip', ','.join(sorted(skip))]
     rc, out, err = run(cmd, timeout=300)
-    st = {'fatal': None, 'failed': {}, 'effects': (True, ''), 'api': (True, ''), 'coord': (True, ''), 'ntv2d': (True, '')}
+    st = {'fatal': None, 'failed': {}, 'effects': (True, ''), 'api': (True, ''), 'coord': (True, ''), 'ntv2d': (True, ''), 'angles': (True, '')}
     if rc == 3:
         st['fatal'] = out.strip()
         return st
@@ -106,6 +106,13 @@ def regen(skip=()):
         st['ntv2d'] = (False, out5.strip()[-600:])
     elif rc5 != 0:
         raise Infra(f'ntv2d2lean.py crashed rc={rc5}: {err5[-2000:]}')
+    # the methods of the angle classes (C08, C12), regenerated from geodepy/angles.py
+    rc6, out6, err6 = run(['python3', os.path.join(VERIF, 'translator', 'angles2lean.py'), '--repo', REPO, '--out',
+                           os.path.join(LEAN, 'GeodeVerif', 'GenF', 'AnglesCls.lean')], timeout=120)
+    if rc6 == 3:
+        st['angles'] = (False, out6.strip()[-600:])
+    elif rc6 != 0:
+        raise Infra(f'angles2lean.py crashed rc={rc6}: {err6[-2000:]}')
     return st
 
 
@@ -117,7 +124,7 @@ def base_fn(name):
 def gen_decl_to_skip(e):
     """a Lean error inside a generated file: the translated function it belongs to ('Module.fn'), or None"""
     m = re.search(r'Gen[FRQ]/(\w+)\.lean$', e['file'])
-    if not m or not e.get('decl') or m.group(1) in ('Dispatch', 'Effects', 'Api', 'Coord', 'Ntv2d'):
+    if not m or not e.get('decl') or m.group(1) in ('Dispatch', 'Effects', 'Api', 'Coord', 'Ntv2d', 'AnglesCls'):
         return None
     decl = e['decl'].replace('«', '').replace('»', '')
     try:
@@ -329,6 +336,9 @@ def check_property(pid, tier_):
                 # coord.py has left the translated subset: the theorems about its regenerated reading cannot be checked
                 broken.append({'kind': 'translator', 'what': 'coord2lean.py: ' + st['coord'][1]})
                 more_mods = [m for m in more_mods if m not in P.get('coord_modules', ())]
+            if P.get('needs_angles') and not st['angles'][0]:
+                broken.append({'kind': 'translator', 'what': 'angles2lean.py: ' + st['angles'][1]})
+                more_mods = [m for m in more_mods if m not in P.get('angles_modules', ())]
             if P.get('needs_ntv2d') and not st['ntv2d'][0]:
                 broken.append({'kind': 'translator', 'what': 'ntv2d2lean.py: ' + st['ntv2d'][1]})
                 more_mods = [m for m in more_mods if m not in P.get('ntv2d_modules', ())]
@@ -582,7 +592,7 @@ def count_theorems(module):
 def setup():
     with Lock():
         st = regen()
-        if st['fatal'] or st['failed'] or not st['effects'][0] or not st['api'][0] or not st['coord'][0] or not st['ntv2d'][0]:
+        if st['fatal'] or st['failed'] or not st['effects'][0] or not st['api'][0] or not st['coord'][0] or not st['ntv2d'][0] or not st['angles'][0]:
             log('setup: translator failed: ' + json.dumps(st)[:2000])
             return 2
         import propdefs
